@@ -42,7 +42,7 @@ theorem pyRoundQ_eq_iff (q : Rat) : ((pyRoundQ q : Int) : Rat) = q ↔ q.den = 1
     simp only [hf, hq]
     have : q - q = 0 := Rat.sub_self
     rw [this]
-    have h12 : (0 : Rat) < 1 / 2 := by decide
+    have h12 : (0 : Rat) < 1 / 2 := by decide +kernel
     rw [if_pos h12]
     exact hq
 
@@ -85,5 +85,92 @@ theorem allRoundTrip_eq (fv : List PVal) (b : Bool) (h : allRoundTrip fv = .ok b
             · simp [hd, (pyRoundQ_eq_iff q).mpr hd]
             · have : ¬ (q = ((pyRoundQ q : Int) : Rat)) := fun hh => hd ((pyRoundQ_eq_iff q).mp hh.symm)
               simp [hd, this]
+
+theorem typeOK_numeric_wired {h : Hdr} {v : PVal} (hn : h.type.isNumeric = true) (hw : Wired v)
+    (ht : typeOK h v = true) : ∃ x, v = .flt x ∧ x ≠ .nan := by
+  rcases hw with ⟨x, rfl⟩ | ⟨s, rfl⟩
+  · refine ⟨x, rfl, ?_⟩
+    cases hty : h.type <;> rw [hty] at hn <;> simp [PType.isNumeric] at hn <;>
+      (simp only [typeOK, hty, isNumber, numOf] at ht; intro hx; subst hx; simp at ht)
+  · cases hty : h.type <;> rw [hty] at hn <;> simp [PType.isNumeric] at hn <;>
+      simp [typeOK, hty, isNumber, numOf] at ht
+
+/-- MAIN (per value): a stored value that lies in the parameter's domain is presented with
+the same value, in the declared type -/
+theorem cast_stored (h : Hdr) (v : PVal) (hw : Wired v) (hext : extOK h = true)
+    (hin : (typeOK h v && inDomain h v) = true) :
+    ∃ r, cast h.ext v = .ok (some r) ∧ valueOK h v (some r) = true := by
+  simp only [Bool.and_eq_true] at hin
+  obtain ⟨ht, hd⟩ := hin
+  cases he : h.ext with
+  | internal =>
+    refine ⟨v, by simp [cast], ?_⟩
+    cases hty : h.type with
+    | custom => simp [typeOK, hty] at ht
+    | categorical =>
+      rcases hw with ⟨x, rfl⟩ | ⟨s, rfl⟩
+      · simp [typeOK, hty, isStr, isBool] at ht
+      · simp [valueOK, sameValue, pyEq, declaredTag, he, hty, tagOf]
+    | double =>
+      obtain ⟨x, rfl, hx⟩ := typeOK_numeric_wired (by rw [hty]; rfl) hw ht
+      simp [valueOK, sameValue, pyEq, numOf, Flt.beq_self hx, declaredTag, he, hty, tagOf]
+    | discrete =>
+      obtain ⟨x, rfl, hx⟩ := typeOK_numeric_wired (by rw [hty]; rfl) hw ht
+      simp [valueOK, sameValue, pyEq, numOf, Flt.beq_self hx, declaredTag, he, hty, tagOf]
+    | integer =>
+      obtain ⟨x, rfl, hx⟩ := typeOK_numeric_wired (by rw [hty]; rfl) hw ht
+      simp [valueOK, sameValue, pyEq, numOf, Flt.beq_self hx, declaredTag, he, hty]
+  | boolean =>
+    simp only [extOK, he, Bool.and_eq_true, beq_iff_eq, List.all_eq_true, Bool.or_eq_true, decide_eq_true_eq] at hext
+    obtain ⟨hty, hfe⟩ := hext
+    rcases hw with ⟨x, rfl⟩ | ⟨s, rfl⟩
+    · simp [typeOK, hty, isStr, isBool] at ht
+    · simp only [inDomain, hty, strForm, List.any_eq_true, decide_eq_true_eq] at hd
+      obtain ⟨f, hf, rfl⟩ := hd
+      rcases hfe _ hf with hs | hs
+      · have : s = "True" := by injection hs
+        subst this
+        exact ⟨.bool true, by simp [cast, asBool, TRUE_VALUE], by simp [valueOK, sameValue, pyEq, declaredTag, he, tagOf]⟩
+      · have : s = "False" := by injection hs
+        subst this
+        exact ⟨.bool false, by simp [cast, asBool, TRUE_VALUE, FALSE_VALUE], by simp [valueOK, sameValue, pyEq, declaredTag, he, tagOf]⟩
+  | integer =>
+    simp only [extOK, he, Bool.or_eq_true, Bool.and_eq_true, beq_iff_eq] at hext
+    have hnum : h.type.isNumeric = true := by
+      rcases hext with ⟨hty, _⟩ | hty <;> rw [hty] <;> rfl
+    obtain ⟨x, rfl, hx⟩ := typeOK_numeric_wired hnum hw ht
+    -- the stored value is an integral finite number
+    have hq : ∃ q, x = .fin q ∧ q.den = 1 := by
+      rcases hext with ⟨hty, hai⟩ | hty
+      · simp only [inDomain, hty] at hd
+        cases x with
+        | fin q =>
+          refine ⟨q, rfl, ?_⟩
+          have r1 : ratOf (PVal.flt (.fin q)) = some q := rfl
+          simp only [r1, List.any_eq_true, decide_eq_true_eq] at hd
+          obtain ⟨f, hf, hfq⟩ := hd
+          have := List.all_eq_true.mp hai f hf
+          simp only [hfq] at this
+          exact (isIntegralQ_iff q).mp this
+        | nan => simp [ratOf] at hd
+        | pinf => simp [ratOf] at hd
+        | ninf => simp [ratOf] at hd
+      · simp only [inDomain, hty] at hd
+        cases x with
+        | fin q =>
+          simp only [ratOf, Bool.and_eq_true] at hd
+          exact ⟨q, rfl, (isIntegralQ_iff q).mp hd.1⟩
+        | nan => simp [ratOf] at hd
+        | pinf => simp [ratOf] at hd
+        | ninf => simp [ratOf] at hd
+    obtain ⟨q, rfl, hden⟩ := hq
+    refine ⟨.int (truncQ q), by simp [cast, asInt], ?_⟩
+    have := (intCast_truncQ_eq_iff q).mpr hden
+    simp [valueOK, sameValue, pyEq, numOf, Flt.beq, this, declaredTag, he, tagOf]
+  | float =>
+    simp only [extOK, he] at hext
+    obtain ⟨x, rfl, hx⟩ := typeOK_numeric_wired hext hw ht
+    exact ⟨.flt x, by simp [cast, asFloat],
+      by simp [valueOK, sameValue, pyEq, numOf, Flt.beq_self hx, declaredTag, he, tagOf]⟩
 
 end VizierModel.Space
